@@ -931,7 +931,7 @@ func Merge[T any](in ...Stream[T]) Stream[T] {
 			}
 		}()
 	}
-	return receiver
+	return &mergeStream[T]{inner: receiver, cancel: cancel}
 }
 
 type mergeStream[T any] struct {
